@@ -102,7 +102,11 @@ func (l *link) CloseWrite() error {
 	return l.pw.Close()
 }
 
-// Abort ends the stream with an error for both sides.
+// AbortWrite is called by the writing side: the reader sees err from now on, whether it is already blocked
+// in Read or arrives later.
+func (l *link) AbortWrite(err error) { _ = l.pw.CloseWithError(err) }
+
+// Abort ends the stream with an error for both sides (used from outside, on cancellation only).
 func (l *link) Abort(err error) {
 	_ = l.pw.CloseWithError(err)
 	_ = l.pr.CloseWithError(err)
